@@ -56,7 +56,7 @@ def run(chk, prog, funcs, dom=3):
                         continue
                     seen.add(key)
                     what = ('the call does not establish the callee contract: ' if ob.kind.startswith('contract:') else '')
-                    chk.violation(Finding('K.bounds', rel(f.file), name, ob.text, ob.where,
+                    chk.violation(Finding('K.contraction' if ob.kind == 'contraction' else 'K.bounds', rel(f.file), name, ob.text, ob.where,
                                           '%s: %s`%s`: %s%s' % (name, what, ob.text, ob.detail,
                                                                  (' (shape admitted by the contract: %s)' % '; '.join(pre)) if pre else ''),
                                           witness=ob.witness))
